@@ -444,7 +444,8 @@ def judge_stft(ctx, case, fin, obs, variant):
         # withheld (a hop that was never given - None, encoded 0 - may be left to the strategy's default)
         exp = layer_dict(fin["olaArgs"])
         got = obs["ola"] or {}
-        if obs["ncalls"] != 1 or any(k not in exp or got[k] != exp[k] for k in got) \
+        hop_default = lambda k: k == "hop" and exp.get("hop") in (None, 0) and got.get("hop") == exp.get("size")
+        if obs["ncalls"] != 1 or any(k not in exp or (got[k] != exp[k] and not hop_default(k)) for k in got) \
                 or any(k not in got and not (k == "hop" and exp[k] in (None, 0)) for k in exp):
             return "ola-options"
     if not same_blocks(obs["fseen"], seq(fin["fseen"]), ns):
